@@ -80,7 +80,7 @@ func checkC06(e *RunEnv) *CheckResult {
 			}
 		}
 		// deeper directories: a query must select exactly what lies beneath it, at every level
-		deep := []string{"a/b/c", "a/b/d/e", "a/c/x", "a/bc", "a/b.c", "ab/c"}
+		deep := []string{"a/b/c", "a/b/d/e", "a/c/x", "a/bc", "a/b.c", "ab/c", "a/.cfg/x"}
 		for _, set := range subsetsUpTo(deep, e.pick(3, 4)) {
 			if len(set) < 2 {
 				continue
@@ -97,7 +97,7 @@ func checkC06(e *RunEnv) *CheckResult {
 			jt := append(nameSetTags(set), "judge")
 			// two variants of the state queried: edits re-staged / additionally one tracked path removed (a staged
 			// removal) and a new file, not tracked yet, in the first directory
-			pre2 := append(append([]Step{}, pre...), Run("rm", set[0]), Write("a/b/new", "not tracked yet\n"))
+			pre2 := append(append([]Step{}, pre...), Run("rm", set[0]), Write("a/b/new", "not tracked yet\n"), Write(set[len(set)-1], "edited again, not staged\n"))
 			for vi, pv := range [][]Step{pre, pre2} {
 				qs := [][]string{{"a/b"}, {"a/c"}, {"a"}, {"a/b/d"}, {"a/b", "a/c"}, {"a/c", "a/b"}, {"ab", "a/b"}}
 				if vi == 1 {
